@@ -50,6 +50,7 @@ class Equip(secsgem.gem.GemEquipmentHandler):
         self.collection_events.update({
             100: secsgem.gem.CollectionEvent(100, "ce100", [30]),
             101: secsgem.gem.CollectionEvent(101, "ce101", []),
+            102: secsgem.gem.CollectionEvent(102, "ce102", []),
             5001: secsgem.gem.CollectionEvent(5001, "rcmd done", []),
             5002: secsgem.gem.CollectionEvent(5002, "alarm on", []),
             5003: secsgem.gem.CollectionEvent(5003, "alarm off", []),
@@ -64,6 +65,17 @@ class Equip(secsgem.gem.GemEquipmentHandler):
 
     def _rcmd_go(self, **kw):
         self.rcmd_calls.append(kw)
+
+    def _on_s02f37(self, handler, message):
+        """as the library's handler; on request of the harness the event just enabled is triggered BEFORE the S2F38 leaves
+        (an equipment whose process reaches the event right after it was enabled)"""
+        reply = super()._on_s02f37(handler, message)
+        ceid = getattr(self, "_v_trigger_in_s2f37", None)
+        if ceid is not None:
+            self._v_trigger_in_s2f37 = None
+            self.trigger_collection_events([ceid])
+            time.sleep(0.2)
+        return reply
 
     def on_sv_value_request(self, svid, sv):
         return sv.value_type(self.sv[sv.svid])
@@ -126,6 +138,24 @@ class Trace:
         state.events.enter._callbacks.insert(0, on_enter)
 
 
+class SlowList(list):
+    """`_wait_event_list` whose append lets the handler reach COMMUNICATING first (the adverse interleaving of
+    `waitfor_communicating` with the state change): a correct implementation registers, then looks at the state."""
+
+    def __init__(self, handler, bound):
+        super().__init__()
+        self.h, self.bound, self.used = handler, bound, False
+
+    def append(self, ev):
+        if not self.used:
+            self.used = True
+            t_end = time.time() + self.bound
+            while time.time() < t_end and self.h.communication_state.current != CommunicationState.COMMUNICATING:
+                time.sleep(0.002)
+            time.sleep(0.01)
+        super().append(ev)
+
+
 def wait_both(host, eq, bound):
     t0 = time.time()
     ok_h = host.waitfor_communicating(bound)
@@ -184,7 +214,7 @@ def service_calls(res, rng, host, eq, scen, n_calls):
     expected_alarm_msgs = 0
     subscribed = eq.__dict__.setdefault("_v_subscribed", {})  # subscriptions survive reconnects (the equipment keeps its links)
     ops = ["sv", "svs", "ec", "set_ec", "set_ec_bad", "online", "offline", "alarm_en", "alarm_dis", "alarms", "enabled_alarms",
-           "subscribe", "trigger", "trigger", "rcmd", "set_alarm", "clear_alarm", "ayt", "list_svs", "list_ecs"]
+           "subscribe", "trigger", "trigger", "rcmd", "set_alarm", "clear_alarm", "ayt", "list_svs", "list_ecs", "subscribe_race"]
     for i in range(n_calls):
         op = rng.choice(ops)
         res.bump("c20_ops", op)
@@ -277,13 +307,34 @@ def service_calls(res, rng, host, eq, scen, n_calls):
                 fail(f"subscribe_collection_event({ceid}) did not create an enabled link", "enabled link with one report", (st, None if link is None else (link.enabled, list(link.reports))))
             else:
                 subscribed[ceid] = dvs
+        elif op == "subscribe_race":
+            # the event fires on the equipment between its S2F37 handling and the host's return from subscribe_collection_event
+            if 102 in subscribed:
+                continue
+            with lock:
+                n0 = len([e for e in got_events if e[0] == 102])
+            eq._v_trigger_in_s2f37 = 102
+            st, v = bounded(lambda: host.subscribe_collection_event(102, [11]))
+            subscribed[102] = [11]
+            deadline = time.time() + CALL_BOUND
+            while time.time() < deadline:
+                with lock:
+                    if len([e for e in got_events if e[0] == 102]) > n0:
+                        break
+                time.sleep(0.005)
+            time.sleep(0.05)
+            with lock:
+                mine = [e for e in got_events if e[0] == 102][n0:]
+            if st != "ok" or len(mine) != 1 or mine[0][2] != [eq.sv[11]]:
+                fail("event triggered while enabled, right after the subscription was accepted by the equipment: host received "
+                     f"{len(mine)} reports instead of exactly one", 1, (st, mine), klass="c20-event-once")
         elif op == "trigger":
             if not subscribed:
                 continue
             ceid = rng.choice(sorted(subscribed))
             with lock:
                 n0 = len([e for e in got_events if e[0] == ceid])
-            want_vals = [eq.data_values[30].value] if ceid == 100 else [eq.sv[10]]
+            want_vals = [eq.data_values[30].value] if ceid == 100 else ([eq.sv[10]] if ceid == 101 else [eq.sv[11]])
             eq.trigger_collection_events([ceid])
             expected_events += 1
             deadline = time.time() + CALL_BOUND
@@ -338,10 +389,20 @@ def scenario(res, rng, drv_lines, host_active, eq_first, seg, delays, n_calls, c
     case = {"scenario": scen, "host_active": host_active, "equipment_first": eq_first, "seg": seg[:6], "delays": delays[:6]}
     try:
         first, second = (eq, host) if eq_first else (host, eq)
+        # waiter that starts waiting before communication is established and whose registration is overtaken by the state change
+        racer = host if rng.chance(1, 2) else eq
+        racer._wait_event_list = SlowList(racer, BOUND)
+        race_out = {}
+        rt = threading.Thread(target=lambda: race_out.setdefault("v", racer.waitfor_communicating(4)), daemon=True)
         first.enable()
         time.sleep(rng.choice([0.0, 0.01, 0.2]))
         second.enable()
+        rt.start()
         ok, dt = wait_both(host, eq, BOUND)
+        rt.join(BOUND)
+        if ok and race_out.get("v") is not True:
+            res.violate("c20-waitfor-lost-wakeup", "waitfor_communicating(4) returned False / did not return although the handler reached COMMUNICATING while it was registering",
+                        case, True, race_out.get("v"))
         res.count(("start", scen), sample={"scenario": scen, "communicating": ok, "seconds": round(dt, 3)})
         res.bump("c20_convergence_s", int(dt))
         if not ok:
